@@ -61,7 +61,7 @@ pub fn run(ctx: &mut Ctx) {
 			ctx,
 			fam,
 			n,
-			|| (gen::arb_value(print_value_cfg()), arb_optcase(), any::<bool>()),
+			|| (gen::arb_doc_value(print_value_cfg()), arb_optcase(), any::<bool>()),
 			|(v, oc, route)| match property(v, oc, *route) {
 				Ok(()) => {
 					let (nt, classes) = classify(v, oc);
